@@ -174,6 +174,7 @@ class StateVectorExecutor(TraceExecutor):
         self.sv = qm.StateVector()
         self.nv_semantics = False  # informational
         self.before_remove_hook: Optional[Callable[[int], None]] = None
+        self.before_measure_hook: Optional[Callable[[int], None]] = None
 
     def _reserve_physical_qubit(self, physical_address):
         if physical_address not in self.sv.labels:
@@ -216,6 +217,8 @@ class StateVectorExecutor(TraceExecutor):
         self.sv.apply(U, [p1, p2])
 
     def _measure_phys(self, p) -> int:
+        if self.before_measure_hook is not None:
+            self.before_measure_hook(p)
         want = self._next_outcome()
         m = self.sv.measure(p, want)
         self.outcome_log.append(m)
